@@ -209,6 +209,7 @@ theorem scaleF_bound {initial : Int} {a : Acc} {cw : Int} (hi : 0 < initial) (hg
       _ ≤ 256 * 1 := mul_le_mul_of_nonneg_left h2 (by norm_num)
       _ = 256 := by ring
 
+omit R in
 theorem scaleF_pos {initial : Int} {a : Acc} (hi : 0 < initial) (hmn : 0 < a.mn) (hmx : 0 < a.mx) :
     0 < scaleF rnd initial a := by
   have hi' : (0 : Rat) < initial := by exact_mod_cast hi
@@ -244,10 +245,8 @@ theorem ratio_gap {p q : Cluster} {L : Int} (hL : 0 < L) (hL16 : L < 2 ^ 16)
     have h2 : ((Int.gcd p.length q.length * Int.lcm p.length q.length : Nat) : Int) =
         ((p.length.natAbs * q.length.natAbs : Nat) : Int) := by rw [this]
     push_cast at h2
-    rw [Int.natAbs_of_nonneg (le_of_lt hlp), Int.natAbs_of_nonneg (le_of_lt hlq)] at h2
-    have e1 : |p.length| = p.length := abs_of_pos hlp
-    have e2 : |q.length| = q.length := abs_of_pos hlq
-    simpa [e1, e2] using h2
+    rw [abs_of_pos hlp, abs_of_pos hlq] at h2
+    exact h2
   have hlcm_le : (Int.lcm p.length q.length : Int) ≤ L := by
     have hLn : L = ((L.toNat : Nat) : Int) := (Int.toNat_of_nonneg (le_of_lt hL)).symm
     have h1 : p.length ∣ ((L.toNat : Nat) : Int) := hLn ▸ hdp
@@ -272,11 +271,12 @@ theorem ratio_gap {p q : Cluster} {L : Int} (hL : 0 < L) (hL16 : L < 2 ^ 16)
     have s2 : (p.weight * q.length) * (p.weight * q.length) ≤ (p.weight * q.length) * (q.weight * p.length) :=
       Int.mul_le_mul_of_nonneg_left (le_of_lt hAB) hA0
     have s3 : (p.weight * q.length) * (q.weight * p.length) = (p.weight * q.weight) * (p.length * q.length) := by ring
-    have s4 : p.weight * q.weight ≤ 256 * 256 := Int.mul_le_mul hwp' hwq (by omega) (by norm_num)
     have hq0 : 0 ≤ q.weight := by
       by_contra hneg
-      have : q.weight * p.length ≤ 0 := Int.mul_nonpos_of_nonpos_of_nonneg (by omega) (le_of_lt hlp)
+      have hq' : q.weight ≤ 0 := by omega
+      have : q.weight * p.length ≤ 0 := Int.mul_nonpos_of_nonpos_of_nonneg hq' (le_of_lt hlp)
       omega
+    have s4 : p.weight * q.weight ≤ 256 * 256 := Int.mul_le_mul hwp' hwq hq0 (by norm_num)
     have s5 : (p.weight * q.weight) * (p.length * q.length) ≤ (256 * 256) * (p.length * q.length) :=
       Int.mul_le_mul_of_nonneg_right s4 (Int.mul_nonneg (le_of_lt hlp) (le_of_lt hlq))
     rw [← hgl] at s5
